@@ -1170,6 +1170,15 @@ def gen_C14(rng, tier):
             if rng.random() < 0.5:
                 prog.append(stat_query(rng, 0, rng.choice(STAT_Q)))
         prog += [stat_query(rng, 0, q) for q in rng.sample(STAT_Q, 4)] + [C.read(0, "frame")]
+        if rng.random() < 0.3:      # a copy has its own caches and its own distribution: layer one of the two, then ask both
+            how = rng.choice(["copy", "copy", "clipnone"])
+            prog.append(C.un(75, "copy", 0) if how == "copy" else C.clip(75, 0, None, None))
+            tgt = rng.choice([75, 75, 0])
+            a, b = rng.choice(lay_pts), rng.choice(lay_pts)
+            prog.append(C.layer_s(tgt, a, b, rng.choice([F(1), F(2), F(-1)])))
+            for r_ in (75, 0):
+                prog += [stat_query(rng, r_, q) for q in rng.sample(STAT_Q, 3)]
+            prog += [C.read(75, "frame"), C.read(0, "frame")]
         cases.append(mk(f"C14/{k}", prog, flav(rng, has_nan(base)), mode="tol", tags=["history"]))
     # integrals beyond the range of a Timedelta (datetime domain, huge values): integral() refuses every time it is asked -
     # not only the first -, and mean() is unaffected, before and after a layer call
@@ -1284,9 +1293,11 @@ def rand_intervals(rng, leaf, tiling=False):
     for _ in range(rng.randint(1, 4)):
         a, b = sorted(rng.sample(grid, 2))
         out.append((a, b))
+    if rng.random() < 0.25:      # the same interval more than once: one row each
+        out.insert(rng.randrange(len(out) + 1), rng.choice(out))
     if rng.random() < 0.5:
         out.sort()       # sorted by left end: nested / overlapping intervals then count as 'monotonic increasing' for pandas
-    return out       # overlapping, gapped, unordered alike
+    return out       # overlapping, gapped, unordered, repeated alike
 
 
 SSTATS = ["mean", "integral", "median", "mode", "min", "max"]
@@ -1380,7 +1391,7 @@ def gen_C18(rng, tier):
     small = canonical_leaves([F(0), F(1), F(2)], [None, F(0), F(1), F(2)])
     cases = []
     for k in range(2 * n):
-        m = rng.choice([1, 2, 2, 3, 4, 4])
+        m = rng.choice([1, 2, 2, 3, 4, 4, 5])
         base = rng.choice(SIDES)
         leaves, prog = [], []
         for i in range(m):
